@@ -161,8 +161,11 @@ func calculateExecutionType(
 		return unifiedT
 
 	case base.OPTIONAL_UNIFY:
-		m.evaluatedObjectT.AppendVariant(*base.MakeNil())
-		unifiedT := base.MakeUnifiedT(m.evaluatedObjectT.GetVariants())
+		// the receiver itself keeps its element types: asking for arr.first must
+		// not turn arr into an array that contains nil
+		objectT := m.evaluatedObjectT.DeepCopy()
+		objectT.AppendVariant(*base.MakeNil())
+		unifiedT := base.MakeUnifiedT(objectT.GetVariants())
 
 		return unifiedT
 
